@@ -11,7 +11,13 @@ for f in sorted(glob.glob(os.path.join(HERE, "seeded", "*", "meta.json"))):
     name = os.path.basename(os.path.dirname(f))
     per = {}
     valid = None
+    neutral = None
     for ev in m.get("evaluations", []):
+        if ev.get("demo_exit_with_patch") == 0:
+            # on this /repo HEAD the seeded change no longer changes behaviour (a later fix:
+            # commit removed or rewrote the code it touches): nothing to catch
+            neutral = ev.get("repo_head")
+            continue
         if "tests_exit_with_patch" in ev:
             valid = (ev.get("demo_exit_without_patch") == 0 and ev.get("demo_exit_with_patch") not in (0, None)
                      and ev.get("tests_exit_with_patch") == 0)
@@ -20,7 +26,10 @@ for f in sorted(glob.glob(os.path.join(HERE, "seeded", "*", "meta.json"))):
     caught = [c for c, v in per.items() if v["exit"] == 1]
     missed = [c for c, v in per.items() if v["exit"] != 1]
     keys = "; ".join(sorted({k for c in caught for k in per[c]["keys"][:1]}))[:110]
-    rows.append((name, m["property"], m["summary"].replace("|", "/").replace("\n", " ")[:170], valid, caught, missed, keys))
+    summ = m["summary"].replace("|", "/").replace("\n", " ")[:170]
+    if neutral:
+        summ += f" [behaviour-neutral since /repo {neutral}; row shows the evaluations before that]"
+    rows.append((name, m["property"], summ, valid, caught, missed, keys))
 out = ["| seeded change | breaks | what it changes | valid (tests pass, demo 0->1) | caught by (quick tier) | example violation key |", "|---|---|---|---|---|---|"]
 for name, pid, summ, valid, caught, missed, keys in rows:
     c = ", ".join(caught) if caught else "**missed**"
